@@ -509,7 +509,7 @@ fn strategy(ctx: &Ctx) -> impl Strategy<Value = Case> + use<> {
             header,
             format,
             rot,
-            src: (srcs as usize * 5 / 256) as u8,
+            src: (srcs as usize * 6 / 256) as u8,
             perm: perm[..ncols].to_vec(),
             take: 1 + take % ncols as u8,
             excl: fl.steered.get(),
@@ -620,10 +620,20 @@ async fn round_trip(db: &Database, c: &Case, csv: &Path) -> Run {
         3 => p[..(c.take as usize).clamp(1, n)].to_vec(),
         _ => all.clone(),
     };
-    let Out::Rows(t) = exec(db, &format!("select {} from t", names(&file_cols))).await else {
+    // source form 5: a filtered query. The predicate rejects the rows that equal one generated row in
+    // one column, so whole INSERT batches (= chunks of the scan) can come out of the filter empty.
+    let filter = if c.src == 5 && !c.rows.is_empty() {
+        let i = file_cols[c.take as usize % file_cols.len()];
+        let lit = &c.rows[c.rot as usize % c.rows.len()][i];
+        Some(if lit.eq_ignore_ascii_case("null") { format!(" where c{i} is not null") } else { format!(" where c{i} <> cast({lit} as {})", c.cols[i]) })
+    } else {
+        None
+    };
+    let wh = filter.clone().unwrap_or_default();
+    let Out::Rows(t) = exec(db, &format!("select {} from t{wh}", names(&file_cols))).await else {
         return Run::Setup("setup:select");
     };
-    if t.len() != total {
+    if t.len() != total && filter.is_none() {
         return Run::Setup("setup:row-count");
     }
     let _ = take_panics();
@@ -633,6 +643,7 @@ async fn round_trip(db: &Database, c: &Case, csv: &Path) -> Run {
         1 => format!("copy t({}) to '{f}'{o}", names(&file_cols)),
         2 => format!("copy (select * from t) to '{f}'{o}"),
         3 => format!("copy (select {} from t) to '{f}'{o}", names(&file_cols)),
+        5 => format!("copy (select {} from t{wh}) to '{f}'{o}", names(&file_cols)),
         _ => format!("copy t to '{f}'{o}"),
     };
     let export = exec(db, &to).await;
@@ -665,7 +676,12 @@ async fn round_trip(db: &Database, c: &Case, csv: &Path) -> Run {
                     continue;
                 }
                 let q = |t: &str| format!("select count(*) from {t} where c{i} = cast({lit} as {})", c.cols[i]);
-                let a = exec(db, &q("t")).await;
+                // (the rows of t that were exported: the filter of source form 5 applies)
+                let qt = match &filter {
+                    Some(f) => format!("{} and ({})", q("t"), f.trim_start().trim_start_matches("where ")),
+                    None => q("t"),
+                };
+                let a = exec(db, &qt).await;
                 let b = exec(db, &q("u")).await;
                 probes.push((c.cols[i].clone(), lit.clone(), a, b));
                 if probes.len() >= 4 {
@@ -1074,7 +1090,7 @@ fn test(ctx: &Ctx, c: &Case, st: &mut Stats) -> Verdict {
         Some(_) => "quote:backtick",
     });
     st.class(["header:absent", "header:false", "header:true", "header:true"][c.header.min(3) as usize]);
-    st.class(["source:table", "source:table-columns", "source:query-star", "source:query-projection", "source:import-column-list"][c.src.min(4) as usize]);
+    st.class(["source:table", "source:table-columns", "source:query-star", "source:query-projection", "source:import-column-list", "source:filtered-query"][c.src.min(5) as usize]);
     st.class(match tr.t.len() {
         0 => "rows:0",
         1..=40 => "rows:1-40",
